@@ -260,7 +260,7 @@ def sim_filter_class():
                             break
 
             form = spec.get('form', 'dict')
-            if _hit(spec.get('empty'), key):
+            if _hit(spec.get('empty'), key) and form != 'callable':
                 w.ev('emit', st.nid, st.proc.inc, k, 'empty', {})
                 return {}
 
@@ -302,6 +302,9 @@ def sim_filter_class():
                     w.ev('deferred_call', st.nid, st.proc.inc, k, len(calls))
                     if _hit(spec.get('defer_none'), key):
                         return None
+                    if _hit(spec.get('empty'), key):      # a deferred result may evaluate to an empty set as well
+                        w.ev('emit', st.nid, st.proc.inc, k, 'empty', {})
+                        return {}
                     return build()
 
                 w.ev('deferred_made', st.nid, st.proc.inc, k)
@@ -475,14 +478,18 @@ class MQWorld:
                 if s.owner is not None:
                     rec['dropped'].setdefault(s.owner.key, []).append(topic)
             self.ev('pub', okey, sock.sid, mid, topic)
+        elif kind == 'subrecv_oob':
+            frm = extra.b.owner.key if extra is not None and extra.b.owner is not None else '?'
+            self.events.append(('subrecv_oob', self.sched.step, self.sched.now, okey, frm))
         elif kind == 'pullrecv':
             try:
                 env = json.loads(parts[0])
             except Exception:
                 return
             frm = extra.a.owner.key if extra is not None and extra.a.owner is not None else '?'
+            ent = self.entry_of_push(extra.a) if extra is not None else None
             self.events.append(('pullrecv', self.sched.step, self.sched.now, okey, frm, env.get('mid'), env.get('eph', 0),
-                                bool(env.get('new')), env.get('cid')))
+                                bool(env.get('new')), env.get('cid'), None if ent is None else ent.get('eph', 0)))
         elif kind == 'push':
             try:
                 env = json.loads(parts[0])
@@ -490,8 +497,25 @@ class MQWorld:
                 return
             self.reqs.append((self.sched.step, self.sched.now, okey, sock.sid, env.get('mid'), env.get('eph', 0),
                               bool(env.get('new')), extra, self.node_of_endpoint(sock.connectors[0].key)
-                              if sock.connectors else None))
+                              if sock.connectors else None, (self.entry_of_push(sock) or {}).get('eph', 0)))
             self.ev('push', okey, sock.sid, env.get('mid'), extra)
+
+    def entry_of_push(self, sock):
+        """The consumer's source entry a PUSH socket belongs to (ZMQReceiver creates one PUSH per source with fewer than
+        two '?', in the order of the sources). Ground truth for 'is this request channel synchronized', independent of what
+        the request says about itself."""
+        owner = sock.owner
+        if owner is None:
+            return None
+        cache = self.__dict__.setdefault('_push_entry', {})
+        if sock.sid not in cache:
+            spec = self.sc['nodes'].get(owner.name) or {}
+            entries = [e for e in spec.get('sources') or [] if e.get('eph', 0) < 2]
+            pushes = sorted(x.sid for x in self.net.sockets if x.owner is owner and x.type == PUSH)
+            for sid, e in zip(pushes, entries):
+                cache[sid] = e
+            cache.setdefault(sock.sid, None)
+        return cache[sock.sid]
 
     def node_of_endpoint(self, key):
         """Node id that binds the given endpoint key (request endpoints are pub port + 1)."""
